@@ -551,6 +551,11 @@ class PCounter(Pattern):
     def __repr__(self):
         return ("PCounter(%s)" % repr(self.trigger))
 
+    def reset(self):
+        super().reset()
+        self.value = 0
+        self.count = 0
+
     def __next__(self):
         value = next(self.trigger)
         if value > 0 and self.value <= 0:
